@@ -184,7 +184,7 @@ class NodeOracle:
             pick = nd["pick"]
 
             def one(i):
-                if type(x) not in (tuple, list):
+                if type(x) not in (tuple, list, str):
                     raise OracleError("TypeError")
                 if i >= len(x):
                     raise OracleError("IndexError")
